@@ -479,6 +479,7 @@ class PathAnalysis(flow.Analysis):
             return False
         return True
 
+    lit_filter = None  # optional: literal text -> bool; literals it rejects are not recorded (keeps the state set small)
     inliner = None  # optional: call -> expression of a pure single-return predicate with arguments substituted
 
     def cond(self, state: PState, test, pol: bool):
@@ -523,6 +524,8 @@ class PathAnalysis(flow.Analysis):
                 return []
         if lit in ("True",):
             return [state]
+        if self.lit_filter is not None and not self.lit_filter(lit):
+            return [state]
         return [state.add_lit(lit)]
 
     def raises(self, node, state):
@@ -560,3 +563,30 @@ def run_paths(fn_node, event_of=None, fallible_pred=None, cls=PathAnalysis, stmt
     # parameters are their own terms
     out = a.run(fn_node, {st})
     return a, out
+
+
+def relevance_filter(fn_node: ast.AST, seed_exprs) -> "Callable[[str], bool]":
+    """Literal filter for census-style analyses: keep only literals that mention a name the seed
+    expressions depend on (transitively through the function's assignments).  Literals about unrelated
+    branches (headers, logging, configuration) are dropped, so their branches merge."""
+    names = set()
+    for e in seed_exprs:
+        names |= {n.id for n in ast.walk(e) if isinstance(n, ast.Name)}
+    changed = True
+    assigns = [s_ for s_ in ast.walk(fn_node) if isinstance(s_, (ast.Assign, ast.AnnAssign, ast.AugAssign))]
+    while changed:
+        changed = False
+        for s_ in assigns:
+            tg = s_.targets if isinstance(s_, ast.Assign) else [s_.target]
+            tnames = {n.id for t in tg for n in ast.walk(t) if isinstance(n, ast.Name)}
+            if tnames & names and getattr(s_, "value", None) is not None:
+                new = {n.id for n in ast.walk(s_.value) if isinstance(n, ast.Name)} - names
+                if new:
+                    names |= new
+                    changed = True
+    pats = tuple(sorted(names))
+
+    def keep(lit: str) -> bool:
+        return any(p in lit for p in pats)
+
+    return keep
